@@ -419,7 +419,11 @@ fn eval(case: &J) -> Eval {
 			Some(table) => {
 				if let Some((ci, di)) = accepted {
 					let d = &meta[ci]["docs"][di];
-					if d["class"].as_str() == Some("accept") {
+					// A document holding binary data is outside the statement's refusal list, but not
+					// outside its first sentence: TOML has no binary type, so whatever xt writes for
+					// such a document cannot read back as the input value.
+					let with_bytes = d["class"].as_str() == Some("neither") && v_from_json(&d["model"]).is_some_and(|m| has(&m, &|x| matches!(x, V::B(_))));
+					if d["class"].as_str() == Some("accept") || with_bytes {
 						if let Some(model) = v_from_json(&d["model"]) {
 							ev.count("accepted_then_checked_value", 1);
 							if let Err(e) = toml_equals(&toml::Value::Table(table), &model) {
